@@ -286,8 +286,9 @@ def add_graph_node_shape(prog, rep, rule):
               "add_graph_node does not return the pre-push length as the new node's reference: %s" % ret[:120])
     it = [g for g in prog.shape_fns() if g.name == "iter_nodes" and g.self_path == "tsg::graph::Graph"]
     if it:
-        r = canon(Tracer(it[0].body).local(0))
-        rep.check(re.search(r"ops::Range::Range\{0_u32, cast\(Vec::len\(&\*arg:self\.graph_nodes\)\)\}", r) is not None, rule, "Graph::iter_nodes :: 0..len", it[0].loc(),
+        from ..lib.trace import inline_local_calls
+        r = canon(inline_local_calls(prog, Tracer(it[0].body).local(0)))      # `self.node_count()` is `self.graph_nodes.len()`
+        rep.check(re.search(r"ops::Range::Range\{0_u32, cast\(Vec::len\((?:&\*)*&?\*?arg:self\.graph_nodes\)\)\}", r) is not None, rule, "Graph::iter_nodes :: 0..len", it[0].loc(),
                   "iter_nodes = (0..len).map(GraphNodeRef)", "iter_nodes is not 0..graph_nodes.len(): %s" % r[:160])
 
 
